@@ -48,8 +48,14 @@ func cfgOf(c Case) refrpc.Config {
 	return cfg
 }
 
+// limitFor: the Concurrency option of the server of a case; "a value less than 1
+// uses runtime.NumCPU()", so zero and negative values are servers like any other.
+func limitFor(salt uint64) int {
+	return []int{4, 4, 4, 0, -1, -7}[salt%6]
+}
+
 func run(t *testing.T, c Case) engine.Verdict {
-	sc := sim.Scenario{Cfg: sim.Config{AllowPush: c.AllowPush, DisableBuiltin: c.DisableBuiltin, Salt: c.Salt, Concurrency: 4}}
+	sc := sim.Scenario{Cfg: sim.Config{AllowPush: c.AllowPush, DisableBuiltin: c.DisableBuiltin, Salt: c.Salt, Concurrency: limitFor(c.Salt)}}
 	base := 0
 	if c.AllowPush && c.Callbacks > 0 {
 		d1, d2 := -1, 1000
@@ -237,7 +243,7 @@ const rule = "non-trivial = the record has at least one member that is not a pla
 // a valid JSON-RPC 2.0 response (or batch of them), and for every id the
 // number of responses lies between what the records demand and what they allow.
 func runBurst(t *testing.T, c Case) engine.Verdict {
-	sc := sim.Scenario{Cfg: sim.Config{AllowPush: c.AllowPush, DisableBuiltin: c.DisableBuiltin, Salt: c.Salt, Concurrency: 4, Chan: "fragile", NoHooks: c.Salt%2 == 0, Yield: 1}}
+	sc := sim.Scenario{Cfg: sim.Config{AllowPush: c.AllowPush, DisableBuiltin: c.DisableBuiltin, Salt: c.Salt, Concurrency: limitFor(c.Salt), Chan: "fragile", NoHooks: c.Salt%2 == 0, Yield: 1}}
 	cfg := cfgOf(Case{AllowPush: c.AllowPush, DisableBuiltin: c.DisableBuiltin})
 	must, may := map[string]int{}, map[string]int{}
 	for _, r := range c.Records {
